@@ -703,9 +703,29 @@ def ref_active_build(ctx: Ctx) -> RuleResult:
                     (n.value is None or (isinstance(n.value, ast.Constant) and n.value.value is None))]
     chains = _if_chains(f.node)
     r.require(len(none_returns) >= 1, "make_active: 'absent -> None' return not found")
+    def _sentinel_test(t: ast.AST) -> Optional[Tuple[str, bool]]:
+        """`v is S` / `v is not S` where v = kwargs.get(KEY, S) and S is a module-level `object()`: a presence test of KEY."""
+        if not (isinstance(t, ast.Compare) and len(t.ops) == 1 and isinstance(t.ops[0], (ast.Is, ast.IsNot)) and isinstance(t.left, ast.Name)
+                and isinstance(t.comparators[0], ast.Name)):
+            return None
+        v_, s_ = t.left.id, t.comparators[0].id
+        defs = [d for d in iter_own_nodes(f.node) if isinstance(d, (ast.Assign, ast.AnnAssign)) and d.value is not None
+                and dotted(d.targets[0] if isinstance(d, ast.Assign) else d.target) == v_]
+        if len(defs) != 1:
+            return None
+        g_ = defs[0].value
+        if not (isinstance(g_, ast.Call) and isinstance(g_.func, ast.Attribute) and g_.func.attr == "get" and dotted(g_.func.value) == kw
+                and len(g_.args) == 2 and dotted(g_.args[1]) == s_ and dotted(g_.args[0])):
+            return None
+        fresh = [x for x in f.module.tree.body if isinstance(x, (ast.Assign, ast.AnnAssign)) and x.value is not None
+                 and dotted(x.targets[0] if isinstance(x, ast.Assign) else x.target) == s_]
+        if len(fresh) != 1 or not (isinstance(fresh[0].value, ast.Call) and dotted(fresh[0].value.func) == "object" and not fresh[0].value.args):
+            return None
+        return dotted(g_.args[0]).split(".")[-1], isinstance(t.ops[0], ast.IsNot)
+
     for ret in none_returns:
         ch = chains.get(id(ret), ())
-        ok = len(ch) == 1 and (_presence_test(ch[0][0], kw) or (None, None))[1] == (not ch[0][1])
+        ok = len(ch) == 1 and (_presence_test(ch[0][0], kw) or _sentinel_test(ch[0][0]) or (None, None))[1] == (not ch[0][1])
         r.ob(ok, {"returns None under": [norm_src(t) + ("" if v else " (false)") for t, v in ch]})
         if not ok:
             r.violate(f"{f.short}: 'no activation reference' decided by {[norm_src(t) for t, v in ch] or 'nothing'}", f.loc(ret),
